@@ -425,10 +425,40 @@ def rule_selfloop_convention(m):
                 if n['k'] in ('CompoundAssignOperator', 'BinaryOperator') and n.get('op') == '+=':
                     incs.append(n)
             res.sites += 1
+            if len(incs) == 0 and tn.endswith('::getDegree'):
+                # closed form: flag off -> size of the list; flag on -> size + number of occurrences of the vertex itself
+                v = ('var', f.params[0])
+                okc = {True: False, False: False}
+                for n in f.nodes:
+                    if n['k'] != 'ReturnStmt' or not f.children(n['i']):
+                        continue
+                    r = strip_cast(ctx.unconst(ctx.tt.t(f.children(n['i'])[0])))
+
+                    def is_size(u):
+                        u = strip_cast(u)
+                        return u[0] == 'mcall' and u[1] == 'std::list::size' and ((u[2][0] == 'idx' and u[2][2] == v) or
+                                                                                   (u[2][0] == 'mcall' and u[2][3] == (v,)))
+
+                    def is_selfcount(u):
+                        u = strip_cast(u)
+                        return u[0] == 'call' and u[1] == 'std::count' and len(u[2]) == 3 and strip_cast(u[2][2]) == v
+                    for flag in (True, False):
+                        reach = path_eval(ctx, n['i'], {flags[0]: flag})
+                        if reach:
+                            if is_size(r) and not flag:
+                                okc[False] = True
+                            if r[0] == 'bin' and r[1] == '+' and ((is_size(r[2]) and is_selfcount(r[3])) or
+                                                                   (is_size(r[3]) and is_selfcount(r[2]))) and flag:
+                                okc[True] = True
+                if okc[True] and okc[False]:
+                    res.ok(dict(function=f.display(), closed_form='size() [+ count(list, vertex) when self-loops count twice]'), fn=f.display())
+                else:
+                    res.broken('F-ORD.iii: %s is neither an accumulation loop nor the closed form size() + count(self)' % f.display())
+                continue
             if len(incs) != 1:
                 res.broken('F-ORD.iii: expected one accumulation in %s, found %d' % (f.display(), len(incs)))
                 continue
-            rhs = ctx.tt.t(incs[0]['c'][1])
+            rhs = ctx.unconst(ctx.resolve(ctx.tt.t(incs[0]['c'][1])))
             # the two vertex terms: operands of the equality inside the increment
             eqs = [st for st in subterms(rhs) if st[0] == 'bin' and st[1] == '==']
             if len(eqs) != 1:
@@ -812,7 +842,7 @@ OBS_TABLE = {
     LDG + '::getOutDegree': [('size_of', 'param0')],
     LDG + '::getOutDegrees': [('index_loopvar_call', 'getOutDegree')],
     LDG + '::getAdjacencyMatrix': [('matrix', 'first', 'second')],
-    DMG + '::getOutDegrees': [('index', 'first'), ('label', 'first', 'second')],
+    DMG + '::getOutDegrees': [('alt', (('index', 'first'), ('label', 'first', 'second')), (('index_loopvar_call', 'getOutDegree'),))],
     DMG + '::getInDegree': [('cmp', 'second', 'param0'), ('label', 'first', 'second')],
     DMG + '::getInDegrees': [('index', 'second'), ('label', 'first', 'second')],
     DMG + '::getOutDegree': [('label_loop', 'param0')],
@@ -823,6 +853,27 @@ OBS_TABLE = {
     DWG + '::getWeightMatrix': [('matrix_ij',), ('label_ij',)],
     UWG + '::getWeightMatrix': [('matrix_ij',), ('label_ij',)],
 }
+
+
+def _obs_fact_holds(m, f, ctx, tt, fact, edgevar, loopvars, allterms, E, P0):
+    if fact[0] == 'index_loopvar_call':
+        return any(t[0] == 'bin' and t[1] in ('+=', '=') and t[2][0] == 'idx' and t[3][0] == 'mcall' and
+                   t[3][1].endswith('::' + fact[1]) and t[3][3] == (t[2][2],) and
+                   any(t[2][2] == ('var', lv) for lv, _ in loopvars) for t in allterms)
+    if fact[0] == 'index':
+        return edgevar is not None and any(t[0] == 'idx' and t[1][0] == 'var' and t[2] == E(fact[1]) for t in allterms)
+    if fact[0] == 'label':
+        if edgevar is None:
+            return False
+        for t in allterms:
+            for st in subterms(t):
+                k = ctx.label_read(st)
+                if k is None and st[0] == 'mcall' and st[1].endswith('::getEdgeMultiplicity'):
+                    k = Key(st[3][0], st[3][1], True)
+                if k and k.a == E(fact[1]) and k.b == E(fact[2]):
+                    return True
+        return False
+    return False
 
 
 def rule_observers(m):
@@ -857,7 +908,19 @@ def rule_observers(m):
             P0 = ('var', f.params[0]) if f.params else None
             allterms = [tt.t(n['i']) for n in f.nodes if n['k'] in ('CXXOperatorCallExpr', 'BinaryOperator',
                                                                     'CXXMemberCallExpr', 'CompoundAssignOperator')]
+            flat_facts = []
             for fact in facts:
+                if fact[0] == 'alt':
+                    # alternatives: use the first alternative all of whose facts hold; otherwise the first one
+                    chosen = fact[1]
+                    for alt in fact[1:]:
+                        if all(_obs_fact_holds(m, f, ctx, tt, a, edgevar, loopvars, allterms, E, P0) for a in alt):
+                            chosen = alt
+                            break
+                    flat_facts.extend(chosen)
+                else:
+                    flat_facts.append(fact)
+            for fact in flat_facts:
                 res.sites += 1
                 ok = False
                 if fact[0] == 'cmp':
@@ -1259,7 +1322,7 @@ def rule_label_subscripts(m):
                     a = f.branch_atom(bb)
                     if a is None:
                         continue
-                    for (t, pol) in implied(ctx.tt.t(a), ix == 0):
+                    for (t, pol) in implied(resolve_locals(ctx, ctx.tt.t(a), {}), ix == 0):
                         t = resolve_locals(ctx, t, {})
                         while t[0] in ('conv', 'cast'):
                             t = t[2]
@@ -1279,6 +1342,26 @@ def rule_label_subscripts(m):
                         if t[0] == 'bin' and t[1] in ('!=', '>') and strip_cast(t[3]) == ('int', 0) and truth and \
                                 t[2][0] == 'mcall' and t[2][1].endswith('::count'):
                             ok = True
+                        # it != out(a).end() with it = std::find(out(a).begin(), out(a).end(), b)
+                        if t[0] == 'bin' and t[1] in ('!=', '==') and ((t[1] == '!=') == truth):
+                            for it, other in ((t[2], t[3]), (t[3], t[2])):
+                                if it[0] in ('var', 'call') and other[0] == 'mcall' and other[1].endswith(('::end', '::cend')):
+                                    if it[0] == 'var':
+                                        defs = [d for d in var_defs(f, it[1]) if d[1] >= 0]
+                                        dts = [ctx.tt.t(defs[0][1])] if len(defs) == 1 else []
+                                    else:
+                                        dts = [it]
+                                    for dt in dts:
+                                        if dt[0] == 'call' and dt[1] == 'std::find' and len(dt[2]) == 3 and dt[2][1][0] == 'mcall' \
+                                                and dt[2][1][2] == other[2]:
+                                            lst = other[2]
+                                            owner = None
+                                            if lst[0] == 'mcall' and lst[1].endswith(('::getOutNeighbours', '::getNeighbours')):
+                                                owner = lst[3][0]
+                                            elif lst[0] == 'idx':
+                                                owner = lst[2]
+                                            if owner is not None and {owner, dt[2][2]} == {k.a, k.b}:
+                                                ok = True
             if ok:
                 res.ok(dict(function=f.display(), subscript=f.expr_text(e.node)[:60], at=f.nloc(e.node), evidence='edge exists')
                        if len(res.samples) < 10 else None, fn=f.display())
